@@ -1,5 +1,9 @@
 import SwcVerif.Model.Mst
 import SwcVerif.Proofs.Mst
+import SwcVerif.Proofs.Graph
+import Mathlib.Algebra.BigOperators.Group.List.Basic
+import Mathlib.Algebra.Order.BigOperators.Group.List
+import Mathlib.Tactic.Ring
 import Mathlib.Algebra.Order.Field.Rat
 import Mathlib.Tactic.Linarith
 /-! # C17 — point-cloud tree construction yields the intended spanning tree
@@ -566,9 +570,9 @@ theorem branching_limit (dis : List (List Rat)) (bf : Rat) (n : Nat) (hn : 0 < n
   exact this.2 k rfl hk hex
 
 /-- **Prim's step**: without balancing factor and without limit the chosen edge is a lightest edge between
-the connected and the unconnected points (the cut property; that repeating it yields a minimum spanning
-tree is the classical exchange argument, checked against Kruskal by the oracle, not proved here) -/
-theorem prim_step_partial (dis : List (List Rat)) (n : Nat) (excl : Bool) (s : St)
+the connected and the unconnected points (the cut property; `prim_minimal` below carries it through the whole
+loop by the exchange argument) -/
+theorem prim_step (dis : List (List Rat)) (n : Nat) (excl : Bool) (s : St)
     (hi : Inv dis n none excl s) (hmore : nconn s < n) (hpos : 0 < nconn s) :
     let ij := argmin dis 0 s n
     Conn s ij.1 ∧ ¬ Conn s ij.2 ∧
@@ -583,10 +587,342 @@ theorem prim_step_partial (dis : List (List Rat)) (n : Nat) (excl : Bool) (s : S
   have := h4 i j hin hjn ((hi.mask i j hin hjn).mpr ⟨hci, hns i, hcj⟩)
   simpa [cellCost] using this
 
+/-! ### Prim's algorithm returns a minimum spanning tree (the exchange argument) -/
+open Relation Graph
+
+/-- entry `(a, b)` of the distance matrix -/
+def dist (dis : List (List Rat)) (a b : Nat) : Rat := (dis.getD a []).getD b 0
+
+/-- total length of a list of edges -/
+def wL (dis : List (List Rat)) (R : List (Nat × Nat)) : Rat := (R.map fun f => dist dis f.1 f.2).sum
+
+/-- total length of the edges `(pid[j], j)` chosen so far -/
+def treeLength (dis : List (List Rat)) (n : Nat) (s : St) : Rat :=
+  ((List.range n).map fun j =>
+    if s.pid.getD j (-1) = -1 then 0 else dist dis (s.pid.getD j (-1)).toNat j).sum
+
+/-- the edges chosen so far, as an undirected adjacency relation -/
+def adjS (s : St) (x y : Nat) : Prop := s.pid.getD y (-1) = (x : Int) ∨ s.pid.getD x (-1) = (y : Int)
+
+theorem adjS_symm {s : St} {x y : Nat} (h : adjS s x y) : adjS s y x := h.symm
+
+/-- every point below `n` can be reached from point 0 along the edges of the list -/
+def Spans (n : Nat) (E : List (Nat × Nat)) : Prop :=
+  (∀ f ∈ E, f.1 < n ∧ f.2 < n) ∧ ∀ v, v < n → ReflTransGen (adjL E) 0 v
+
+private theorem sum_map_update (l : List Nat) (f g : Nat → Rat) (j : Nat) (hnd : l.Nodup) (hj : j ∈ l)
+    (h : ∀ a, a ≠ j → g a = f a) : (l.map g).sum = (l.map f).sum + (g j - f j) := by
+  induction l with
+  | nil => simp at hj
+  | cons x l ih =>
+    have hx : x ∉ l := (List.nodup_cons.mp hnd).1
+    have hl : l.Nodup := (List.nodup_cons.mp hnd).2
+    simp only [List.map_cons, List.sum_cons]
+    by_cases hxj : x = j
+    · subst hxj
+      have : l.map g = l.map f := List.map_congr_left (fun a ha => h a (fun e => hx (e ▸ ha)))
+      rw [this]; ring
+    · have hj' : j ∈ l := by
+        rcases List.mem_cons.mp hj with e | e
+        · exact absurd e.symm hxj
+        · exact e
+      rw [ih hl hj', h x hxj]; ring
+
+private theorem wL_erase (dis : List (List Rat)) (R : List (Nat × Nat)) (f : Nat × Nat) (hf : f ∈ R) :
+    wL dis R = dist dis f.1 f.2 + wL dis (R.erase f) := by
+  unfold wL
+  have := (List.perm_cons_erase hf).map (fun f => dist dis f.1 f.2)
+  rw [this.sum_eq]; simp
+
+private theorem wL_nonneg (dis : List (List Rat)) (n : Nat) (R : List (Nat × Nat))
+    (hR : ∀ f ∈ R, f.1 < n ∧ f.2 < n) (hnn : ∀ a b, a < n → b < n → 0 ≤ dist dis a b) : 0 ≤ wL dis R := by
+  unfold wL
+  apply List.sum_nonneg
+  intro x hx
+  obtain ⟨f, hf, rfl⟩ := List.mem_map.mp hx
+  exact hnn _ _ (hR f hf).1 (hR f hf).2
+
+/-- the second loop invariant: the edges chosen so far can be completed — by edges `R` taken from the
+competitor `E` — to a connected spanning graph that is no longer than `E` -/
+def Opt (dis : List (List Rat)) (n : Nat) (E : List (Nat × Nat)) (s : St) : Prop :=
+  ∃ R : List (Nat × Nat), (∀ f ∈ R, f.1 < n ∧ f.2 < n) ∧
+    (∀ v, v < n → ReflTransGen (Adj (adjS s) R) 0 v) ∧ treeLength dis n s + wL dis R ≤ wL dis E
+
+private theorem pid_dflt {dis : List (List Rat)} {n : Nat} {limit : Option Nat} {excl : Bool} {s : St}
+    (hi : Inv dis n limit excl s) (a : Nat) (ha : a < n) : s.pid.getD a (-1) = s.pid.getD a 0 :=
+  getD_dflt s.pid a (-1) 0 (by have := hi.len.1; omega)
+
+/-- a chosen edge joins two connected points -/
+private theorem adjS_conn {dis : List (List Rat)} {n : Nat} {limit : Option Nat} {excl : Bool} {s : St}
+    (hi : Inv dis n limit excl s) : ∀ x y, adjS s x y → (x < n ∧ Conn s x) ∧ (y < n ∧ Conn s y) := by
+  have key : ∀ x y : Nat, s.pid.getD y (-1) = (x : Int) → (x < n ∧ Conn s x) ∧ (y < n ∧ Conn s y) := by
+    intro x y h
+    have hy : y < n := by
+      by_contra hge
+      have : s.pid.getD y (-1) = -1 := by
+        rw [List.getD_eq_getElem?_getD, List.getElem?_eq_none (by have := hi.len.1; omega)]; rfl
+      omega
+    rw [pid_dflt hi y hy] at h
+    have hy0 : y ≠ 0 := by
+      intro e; subst e; rw [hi.root.2.1] at h; omega
+    have hcy : Conn s y := by
+      by_contra hc
+      rw [(hi.parent y hy hy0).2 hc] at h; omega
+    obtain ⟨p, hp, hpid, hcp, _⟩ := (hi.parent y hy hy0).1 hcy
+    have : p = x := by omega
+    subst this
+    exact ⟨⟨hp, hcp⟩, hy, hcy⟩
+  intro x y h
+  rcases h with h | h
+  · exact key x y h
+  · exact (key y x h).symm
+
+private theorem opt_init (dis : List (List Rat)) (n : Nat) (hn : 0 < n) (E : List (Nat × Nat)) (hE : Spans n E) :
+    Opt dis n E (init n) := by
+  refine ⟨E, hE.1, fun v hv => rtg_mono (fun x y h => Or.inr h) (hE.2 v hv), ?_⟩
+  have : treeLength dis n (init n) = 0 := by
+    unfold treeLength
+    apply List.sum_eq_zero
+    intro x hx
+    obtain ⟨j, hj, rfl⟩ := List.mem_map.mp hx
+    have hj' : j < n := List.mem_range.mp hj
+    have : (init n).pid.getD j (-1) = -1 := getD_replicate n j (-1 : Int) (-1) hj'
+    rw [if_pos this]
+  rw [this]; simp
+
+/-- **one Prim step keeps the completion invariant** (exchange argument) -/
+private theorem opt_step (dis : List (List Rat)) (n : Nat) (excl : Bool) (E : List (Nat × Nat)) (s : St)
+    (hsym : ∀ a b, a < n → b < n → dist dis a b = dist dis b a)
+    (hi : Inv dis n none excl s) (hmore : nconn s < n) (hpos : 0 < nconn s) (ho : Opt dis n E s) :
+    Opt dis n E (step dis 0 none excl n s) := by
+  have hk : ∀ k, (none : Option Nat) = some k → 1 ≤ k := by intro k h; cases h
+  obtain ⟨hin, hjn, hopen, _⟩ := greedy_step dis 0 n none excl s hi hk hmore hpos
+  obtain ⟨hci, hcj, hmin⟩ := prim_step dis n excl s hi hmore hpos
+  obtain ⟨_, hsi, _⟩ := (hi.mask _ _ hin hjn).mp hopen
+  rw [step_eq]
+  generalize (argmin dis 0 s n).1 = i at *
+  generalize (argmin dis 0 s n).2 = j at *
+  obtain ⟨R, hR, hconn, hw⟩ := ho
+  let S : Nat → Prop := fun x => x < n ∧ Conn s x
+  have hBS : ∀ x y, adjS s x y → S x ∧ S y := adjS_conn hi
+  have hAsymm : ∀ x y, Adj (adjS s) R x y → Adj (adjS s) R y x := fun x y h => Adj_symm (fun _ _ h => adjS_symm h) h
+  have hij : ReflTransGen (Adj (adjS s) R) i j := (rtg_symm hAsymm (hconn i hin)).trans (hconn j hjn)
+  obtain ⟨f, hfR, a, b, hfab, ha, hb, hia, hbj⟩ :=
+    exists_exchange (adjS s) S hBS R.length R rfl i j ⟨hin, hci⟩ (fun h => hcj h.2) hij
+  have hfr := hR f hfR
+  have han : a < n := ha.1
+  have hbn : b < n := by rcases hfab with rfl | rfl <;> simp at hfr <;> omega
+  have hcb : ¬ Conn s b := fun h => hb ⟨hbn, h⟩
+  -- the new edge is no longer than the one it replaces
+  have hle : dist dis i j ≤ dist dis f.1 f.2 := by
+    have := hmin a b han hbn ha.2 hcb
+    rcases hfab with rfl | rfl
+    · exact this
+    · show dist dis i j ≤ dist dis b a
+      rw [hsym b a hbn han]; exact this
+  set s' := stepAt dis none excl n s i j with hs'
+  have hpid' : ∀ x, s'.pid.getD x (-1) = if x = j then (i : Int) else s.pid.getD x (-1) :=
+    fun x => pid_get hi hk hin hjn hci hsi hcj x (-1)
+  have hpj : s.pid.getD j (-1) = -1 := by
+    rw [pid_dflt hi j hjn]
+    have hj0 : j ≠ 0 := fun e => hcj (e ▸ hi.root.1)
+    exact (hi.parent j hjn hj0).2 hcj
+  -- old edges stay, and the new one is there
+  have hold : ∀ x y, adjS s x y → adjS s' x y := by
+    intro x y h
+    have hxy := hBS x y h
+    have hxj : x ≠ j := fun e => hcj (e ▸ hxy.1.2)
+    have hyj : y ≠ j := fun e => hcj (e ▸ hxy.2.2)
+    unfold adjS
+    rw [hpid' x, hpid' y, if_neg hxj, if_neg hyj]
+    exact h
+  have hnew : adjS s' i j := Or.inl (by rw [hpid' j, if_pos rfl])
+  refine ⟨R.erase f, fun g hg => hR g (List.mem_of_mem_erase hg), ?_, ?_⟩
+  · -- still connected
+    have hsub : ∀ x y, Adj (adjS s) (R.erase f) x y → Adj (adjS s') (R.erase f) x y :=
+      fun x y h => h.elim (fun h => Or.inl (hold x y h)) Or.inr
+    have hA'symm : ∀ x y, Adj (adjS s') (R.erase f) x y → Adj (adjS s') (R.erase f) y x :=
+      fun x y h => Adj_symm (fun _ _ h => adjS_symm h) h
+    have hab : ReflTransGen (Adj (adjS s') (R.erase f)) a b :=
+      ((rtg_symm hA'symm (rtg_mono hsub hia)).tail (Or.inl hnew)).trans (rtg_symm hA'symm (rtg_mono hsub hbj))
+    have hstep : ∀ x y, Adj (adjS s) R x y →
+        Adj (adjS s') (R.erase f) x y ∨ (x = a ∧ y = b) ∨ (x = b ∧ y = a) := by
+      intro x y hxy
+      rcases hxy with hxy | hxy
+      · exact Or.inl (Or.inl (hold x y hxy))
+      · rcases adjL_erase (f := f) hxy with h' | h' | h'
+        · exact Or.inl (Or.inr h')
+        · rcases hfab with rfl | rfl
+          · exact Or.inr (Or.inl h')
+          · exact Or.inr (Or.inr h')
+        · rcases hfab with rfl | rfl
+          · exact Or.inr (Or.inr h')
+          · exact Or.inr (Or.inl h')
+    intro v hv
+    rcases walk_erase hstep (hconn v hv) with h1 | ⟨h1, h2⟩ | ⟨h1, h2⟩
+    · exact h1
+    · exact (h1.trans hab).trans h2
+    · exact (h1.trans (rtg_symm hA'symm hab)).trans h2
+  · -- and not longer
+    have hW : treeLength dis n s' = treeLength dis n s + dist dis i j := by
+      unfold treeLength
+      have := sum_map_update (List.range n)
+        (fun x => if s.pid.getD x (-1) = -1 then 0 else dist dis (s.pid.getD x (-1)).toNat x)
+        (fun x => if s'.pid.getD x (-1) = -1 then 0 else dist dis (s'.pid.getD x (-1)).toNat x)
+        j List.nodup_range (List.mem_range.mpr hjn) (by intro x hx; simp only [hpid' x, if_neg hx])
+      rw [this]
+      simp only [hpid' j, if_pos rfl, hpj]
+      have hne : ¬ ((i : Int) = -1) := by omega
+      simp [hne]
+    rw [hW]
+    have := wL_erase dis R f hfR
+    linarith
+
+private theorem opt_run (dis : List (List Rat)) (n : Nat) (excl : Bool) (E : List (Nat × Nat))
+    (hsym : ∀ a b, a < n → b < n → dist dis a b = dist dis b a) :
+    ∀ (m : Nat) (s : St), Inv dis n none excl s → 0 < nconn s → nconn s + m ≤ n → Opt dis n E s →
+      Opt dis n E (run dis 0 none excl n m s) := by
+  have hk : ∀ k, (none : Option Nat) = some k → 1 ≤ k := by intro k h; cases h
+  intro m
+  induction m with
+  | zero => intro s _ _ _ ho; exact ho
+  | succ m ih =>
+    intro s hi hpos hle ho
+    obtain ⟨h1, h2⟩ := step_inv dis 0 n none excl s hi hk (by omega) hpos
+    exact ih _ h1 (by omega) (by omega) (opt_step dis n excl E s hsym hi (by omega) hpos ho)
+
+/-- **without a balancing factor and without a branching limit the tree is a minimum spanning tree**:
+for a symmetric, non-negative distance matrix, the total length of the edges `(pid[j], j)` the loop
+returns is at most the total length of *any* edge list that connects all the points (in particular of
+any spanning tree) -/
+theorem prim_minimal (dis : List (List Rat)) (n : Nat) (hn : 0 < n) (excl : Bool)
+    (hsym : ∀ a b, a < n → b < n → dist dis a b = dist dis b a)
+    (hnn : ∀ a b, a < n → b < n → 0 ≤ dist dis a b)
+    (E : List (Nat × Nat)) (hE : Spans n E) :
+    treeLength dis n (run dis 0 none excl n (n - 1) (init n)) ≤ wL dis E := by
+  have hk : ∀ k, (none : Option Nat) = some k → 1 ≤ k := by intro k h; cases h
+  have h0 := nconn_init n hn
+  obtain ⟨R, hR, _, hw⟩ := opt_run dis n excl E hsym (n - 1) (init n) (init_inv dis n hn none excl hk)
+    (by omega) (by omega) (opt_init dis n hn E hE)
+  have := wL_nonneg dis n R hR hnn
+  linarith
+
+/-- the edges `(pid[j], j)` of a state, as a list -/
+def edgesOf (n : Nat) (s : St) : List (Nat × Nat) :=
+  (List.range n).filterMap fun j =>
+    if s.pid.getD j (-1) = -1 then none else some ((s.pid.getD j (-1)).toNat, j)
+
+theorem wL_edgesOf (dis : List (List Rat)) (n : Nat) (s : St) : wL dis (edgesOf n s) = treeLength dis n s := by
+  unfold wL edgesOf treeLength
+  induction List.range n with
+  | nil => rfl
+  | cons j l ih =>
+    by_cases h : s.pid.getD j (-1) = -1
+    · simp only [List.filterMap_cons, h, if_true, List.map_cons, List.sum_cons, zero_add]
+      exact ih
+    · simp only [List.filterMap_cons, h, if_false, List.map_cons, List.sum_cons]
+      rw [ih]
+
+/-- **the returned tree is itself one of the competitors**: its edge list connects all the points and has
+the length `treeLength` — so `prim_minimal` says its length *equals* the minimum over all spanning edge lists -/
+theorem prim_attains (dis : List (List Rat)) (bf : Rat) (n : Nat) (hn : 0 < n) (limit : Option Nat) (excl : Bool)
+    (hk : ∀ k, limit = some k → 1 ≤ k) :
+    let s := run dis bf limit excl n (n - 1) (init n)
+    Spans n (edgesOf n s) ∧ wL dis (edgesOf n s) = treeLength dis n s ∧ (edgesOf n s).length = n - 1 := by
+  intro s
+  obtain ⟨hinv, _, hroot, hpar, hreach⟩ := spanning dis bf n hn limit excl hk
+  change Inv dis n limit excl s at hinv
+  change s.pid.getD 0 0 = -1 at hroot
+  change ∀ j, j < n → j ≠ 0 → ∃ i, i < n ∧ s.pid.getD j 0 = (i : Int) at hpar
+  change ∀ j, j < n → ∃ d, d ≤ n ∧ up s d j = 0 at hreach
+  have hedge : ∀ j, j < n → j ≠ 0 → ∃ i, i < n ∧ s.pid.getD j (-1) = (i : Int) ∧ (i, j) ∈ edgesOf n s := by
+    intro j hj hj0
+    obtain ⟨i, hi, hp⟩ := hpar j hj hj0
+    have hp' : s.pid.getD j (-1) = (i : Int) := by rw [pid_dflt hinv j hj, hp]
+    refine ⟨i, hi, hp', ?_⟩
+    unfold edgesOf
+    rw [List.mem_filterMap]
+    refine ⟨j, List.mem_range.mpr hj, ?_⟩
+    rw [hp', if_neg (by omega)]
+    simp
+  refine ⟨⟨?_, ?_⟩, wL_edgesOf dis n s, ?_⟩
+  · intro f hf
+    unfold edgesOf at hf
+    rw [List.mem_filterMap] at hf
+    obtain ⟨j, hj, hfj⟩ := hf
+    have hj' : j < n := List.mem_range.mp hj
+    by_cases h0 : j = 0
+    · subst h0
+      rw [pid_dflt hinv 0 hn, hroot] at hfj
+      simp at hfj
+    · obtain ⟨i, hi, hp, _⟩ := hedge j hj' h0
+      rw [hp, if_neg (by omega)] at hfj
+      simp at hfj
+      subst hfj
+      exact ⟨hi, hj'⟩
+  · have key : ∀ d j, j < n → up s d j = 0 → ReflTransGen (adjL (edgesOf n s)) j 0 := by
+      intro d
+      induction d with
+      | zero =>
+        intro j _ h
+        have : j = 0 := by simpa [up] using h
+        subst this; exact ReflTransGen.refl
+      | succ d ih =>
+        intro j hj h
+        by_cases h0 : j = 0
+        · subst h0; exact ReflTransGen.refl
+        · obtain ⟨i, hi, hp, hmem⟩ := hedge j hj h0
+          rw [up_succ, hp, if_neg (by omega)] at h
+          simp at h
+          exact ReflTransGen.head (Or.inr hmem) (ih i hi h)
+    intro v hv
+    obtain ⟨d, _, hd⟩ := hreach v hv
+    exact rtg_symm (fun _ _ h => adjL_symm h) (key d v hv hd)
+  · -- one edge per point other than the root
+    unfold edgesOf
+    have hcount : ∀ l : List Nat, (∀ j ∈ l, j < n) → l.Nodup →
+        (l.filterMap fun j => if s.pid.getD j (-1) = -1 then none
+          else some ((s.pid.getD j (-1)).toNat, j)).length = (l.filter (· ≠ 0)).length := by
+      intro l
+      induction l with
+      | nil => intro _ _; rfl
+      | cons j l ih =>
+        intro hl hnd
+        have hj : j < n := hl j (List.mem_cons_self)
+        have ih' := ih (fun x hx => hl x (List.mem_cons_of_mem _ hx)) (List.nodup_cons.mp hnd).2
+        by_cases h0 : j = 0
+        · subst h0
+          have : s.pid.getD 0 (-1) = -1 := by rw [pid_dflt hinv 0 hn, hroot]
+          simp only [List.filterMap_cons, this, if_true]
+          rw [ih']; simp
+        · obtain ⟨i, _, hp, _⟩ := hedge j hj h0
+          have hne : ¬ (s.pid.getD j (-1) = -1) := by rw [hp]; omega
+          simp only [List.filterMap_cons, hne, if_false, List.length_cons]
+          rw [ih']; simp [h0]
+    rw [hcount (List.range n) (fun j hj => List.mem_range.mp hj) List.nodup_range]
+    have : (List.range n).filter (· ≠ 0) = (List.range (n - 1)).map (· + 1) := by
+      obtain ⟨m, rfl⟩ : ∃ m, n = m + 1 := ⟨n - 1, by omega⟩
+      rw [List.range_succ_eq_map]
+      simp [List.filter_map, Function.comp_def]
+    rw [this]; simp
+
 -- non-vacuity / concrete behaviour: 4 points on a line at 0, 10, 11, 1
 def exDis : List (List Rat) := [[0, 10, 11, 1], [10, 0, 1, 9], [11, 1, 0, 10], [1, 9, 10, 0]]
 example : mst exDis 0 none true = [-1, 3, 1, 0] := by decide +kernel
 example : mst exDis 1 none true = [-1, 0, 0, 0] := by decide +kernel
 example : mst exDis 0 (some 1) false = [-1, 3, 1, 0] := by decide +kernel
+-- `prim_minimal` / `prim_attains` are not vacuous: the example matrix is symmetric and non-negative, the star
+-- at point 0 is a competitor of length 22, and the loop's tree has length 11
+example : (∀ a, a < 4 → ∀ b, b < 4 → dist exDis a b = dist exDis b a ∧ 0 ≤ dist exDis a b) := by decide +kernel
+private theorem ex_pid : (run exDis 0 none true 4 3 (init 4)).pid = [-1, 3, 1, 0] := by decide +kernel
+example : treeLength exDis 4 (run exDis 0 none true 4 3 (init 4)) = 11 ∧ wL exDis [(0, 1), (0, 2), (0, 3)] = 22 := by
+  refine ⟨?_, by decide +kernel⟩
+  unfold treeLength
+  rw [ex_pid]
+  have h3 : Int.toNat 3 = 3 := rfl
+  have h1 : Int.toNat 1 = 1 := rfl
+  have h0 : Int.toNat 0 = 0 := rfl
+  norm_num [dist, exDis, List.range, List.range.loop, h3, h1, h0]
+example : edgesOf 4 (run exDis 0 none true 4 3 (init 4)) = [(3, 1), (1, 2), (0, 3)] := by decide +kernel
 
 end C17
